@@ -140,6 +140,7 @@ ObsGssvx(r, n, c) ==
                ELSE /\ r.info \in {0, n + 1}
                     /\ (r.info = n + 1) = (r.rcondsmall = 1)   \* C12
                     /\ r.permr = 1
+                    /\ (r.sym = 1 /\ r.u1000 = 0 /\ c.fact # "FACTORED" => r.prpc = 1)   \* C16: every pivot is the original diagonal entry
                     /\ (r.nrhs > 0 /\ r.cond >= 0 /\ r.cond < 100000000 =>
                            /\ r.omega >= 0 /\ r.omega <= OmegaMax        \* C07: solves the ORIGINAL system
                            /\ r.berrdev <= 20000                          \* C13: berr truthful
